@@ -46,6 +46,7 @@ type gPath struct {
 	tuples  map[ssa.Value][]*Term
 	held    map[string]int
 	guarded map[ssa.Value]string // values loaded from guarded fields (maps/slices): guard key
+	cells   map[ssa.Value]string // local variables that live in a heap cell (captured by a closure): access path of the pointer stored in them
 	pc      []*Term
 	pcVars  map[string]bool
 	nils    map[string]*Term
@@ -68,7 +69,7 @@ func (p *gPath) addPC(c *Term) {
 }
 
 func (p *gPath) clone() *gPath {
-	q := &gPath{env: map[ssa.Value]*Term{}, tuples: map[ssa.Value][]*Term{}, held: map[string]int{}, guarded: map[ssa.Value]string{}, nsym: p.nsym, steps: p.steps, pcVars: map[string]bool{}, nils: map[string]*Term{}}
+	q := &gPath{env: map[ssa.Value]*Term{}, tuples: map[ssa.Value][]*Term{}, held: map[string]int{}, guarded: map[ssa.Value]string{}, cells: map[ssa.Value]string{}, nsym: p.nsym, steps: p.steps, pcVars: map[string]bool{}, nils: map[string]*Term{}}
 	for k := range p.pcVars {
 		q.pcVars[k] = true
 	}
@@ -86,6 +87,9 @@ func (p *gPath) clone() *gPath {
 	}
 	for k, v := range p.guarded {
 		q.guarded[k] = v
+	}
+	for k, v := range p.cells {
+		q.cells[k] = v
 	}
 	q.pc = append([]*Term{}, p.pc...)
 	for _, f := range p.stack {
@@ -121,6 +125,7 @@ type gRunner struct {
 	paths    int
 	accesses int
 	findings map[string]gFinding
+	cur      *gPath // the path being run (for key resolution through captured-variable cells)
 	incon    []string
 	skip     func(*ssa.Function) bool
 	interesting map[*ssa.Function]bool
@@ -140,6 +145,11 @@ func (g *gRunner) feasible(pc []*Term) string {
 }
 
 func (g *gRunner) key(f *gFrame, v ssa.Value) string {
+	k := g.key0(f, v)
+	return k
+}
+
+func (g *gRunner) key0(f *gFrame, v ssa.Value) string {
 	switch v := v.(type) {
 	case *ssa.FieldAddr:
 		st := v.X.Type().Underlying().(*types.Pointer).Elem().Underlying().(*types.Struct)
@@ -149,7 +159,12 @@ func (g *gRunner) key(f *gFrame, v ssa.Value) string {
 		return g.key(f, v.X) + "." + st.Field(v.Field).Name()
 	case *ssa.UnOp:
 		if v.Op == token.MUL {
-			return g.key(f, v.X)
+			k := g.key(f, v.X)
+			// loading the pointer kept in a captured variable's cell yields the pointer's own path
+			if strings.HasPrefix(k, "cell:") {
+				return k[len("cell:"):]
+			}
+			return k
 		}
 	case *ssa.Parameter, *ssa.FreeVar:
 		if k, ok := f.keys[v]; ok {
@@ -159,6 +174,11 @@ func (g *gRunner) key(f *gFrame, v ssa.Value) string {
 	case *ssa.Global:
 		return v.Pkg.Pkg.Name() + "." + v.Name()
 	case *ssa.Alloc:
+		if g.cur != nil {
+			if ck, ok := g.cur.cells[v]; ok {
+				return "cell:" + ck
+			}
+		}
 		return "local:" + f.fn.Name() + ":" + v.Name()
 	case *ssa.MakeInterface:
 		return g.key(f, v.X)
@@ -205,11 +225,17 @@ func (g *gRunner) check(p *gPath, f *gFrame, guard, field, kind string, pos toke
 	if guard == "" {
 		return
 	}
+	if dbg := os.Getenv("VERIF_UCG_DEBUG"); dbg != "" && strings.Contains(f.fn.String(), dbg) {
+		fmt.Fprintf(os.Stderr, "ucg: precheck %s %s guard=%s in %s root=%s\n", kind, field, guard, f.fn.String(), root.String())
+	}
 	base := strings.TrimSuffix(guard, guard[strings.LastIndex(guard, "."):])
 	if isLocalKey(base) {
 		return // object still under construction in this function
 	}
 	g.accesses++
+	if dbg := os.Getenv("VERIF_UCG_DEBUG"); dbg != "" && strings.Contains(f.fn.String(), dbg) {
+		fmt.Fprintf(os.Stderr, "ucg: %s %s in %s root=%s held=%v\n", kind, field, f.fn.String(), root.String(), p.held)
+	}
 	ok := p.held["W:"+guard] > 0
 	if kind == "read" {
 		ok = ok || p.held["R:"+guard] > 0
@@ -243,11 +269,21 @@ func (g *gRunner) inlinable(fn *ssa.Function) bool {
 	return !g.skip(fn)
 }
 
+func (g *gRunner) inlinableIgnoringInterest(fn *ssa.Function) bool {
+	if fn == nil || fn.Blocks == nil || fn.Pkg == nil {
+		return false
+	}
+	if !strings.HasPrefix(fn.Pkg.Pkg.Path(), modPath) {
+		return false
+	}
+	return !g.skip(fn)
+}
+
 // explore runs all paths from root.
 func (g *gRunner) explore(root *ssa.Function) {
 	g.visited = map[string]bool{}
 	nsym := 0
-	start := &gPath{env: map[ssa.Value]*Term{}, tuples: map[ssa.Value][]*Term{}, held: map[string]int{}, guarded: map[ssa.Value]string{}, nsym: &nsym, pcVars: map[string]bool{}, nils: map[string]*Term{}}
+	start := &gPath{env: map[ssa.Value]*Term{}, tuples: map[ssa.Value][]*Term{}, held: map[string]int{}, guarded: map[ssa.Value]string{}, cells: map[ssa.Value]string{}, nsym: &nsym, pcVars: map[string]bool{}, nils: map[string]*Term{}}
 	start.stack = []*gFrame{{fn: root, b: root.Blocks[0], keys: map[ssa.Value]string{}, visits: map[*ssa.BasicBlock]int{}}}
 	work := []*gPath{start}
 	paths := 0
@@ -333,6 +369,7 @@ func (g *gRunner) runDefers(p *gPath, f *gFrame) {
 
 // run advances one path until it ends; returns forked paths.
 func (g *gRunner) run(p *gPath, root *ssa.Function) []*gPath {
+	g.cur = p
 	var forks []*gPath
 	for len(p.stack) > 0 {
 		f := p.stack[len(p.stack)-1]
@@ -476,6 +513,16 @@ func (g *gRunner) run(p *gPath, root *ssa.Function) []*gPath {
 				}
 			}
 		case *ssa.Store:
+			if al, ok := in.Addr.(*ssa.Alloc); ok {
+				if _, isPtr := in.Val.Type().Underlying().(*types.Pointer); isPtr {
+					k := g.key(f, in.Val)
+					if !isLocalKey(k) && !strings.HasPrefix(k, "val:") && !strings.HasPrefix(k, "phi:") {
+						p.cells[al] = k
+					} else {
+						delete(p.cells, al)
+					}
+				}
+			}
 			if fa, ok := in.Addr.(*ssa.FieldAddr); ok {
 				guard, field := g.guardOf(f, fa)
 				g.check(p, f, guard, field, "write", in.Pos(), root)
@@ -564,7 +611,18 @@ func (g *gRunner) run(p *gPath, root *ssa.Function) []*gPath {
 			} else if !in.Call.IsInvoke() {
 				callee = in.Call.StaticCallee()
 			}
-			if callee != nil && g.inlinable(callee) && len(p.stack) < g.maxDepth && !onStack(p, callee) {
+			// a callee that receives a map / slice loaded from a guarded field is inlined even if it
+			// touches no guarded field or lock itself: its lookups are accesses to the guarded object
+			tainted := false
+			for _, a := range in.Call.Args {
+				if _, ok := p.guarded[a]; ok {
+					tainted = true
+				}
+			}
+			if dbg := os.Getenv("VERIF_UCG_DEBUG"); dbg != "" && callee != nil && strings.Contains(callee.String(), dbg) {
+				fmt.Fprintf(os.Stderr, "ucg: call %s from %s root=%s inlinable=%v depth=%d onstack=%v\n", callee.String(), f.fn.String(), root.String(), g.inlinable(callee), len(p.stack), onStack(p, callee))
+			}
+			if callee != nil && (g.inlinable(callee) || (tainted && g.inlinableIgnoringInterest(callee))) && len(p.stack) < g.maxDepth && !onStack(p, callee) {
 				nf := &gFrame{fn: callee, b: callee.Blocks[0], keys: map[ssa.Value]string{}, visits: map[*ssa.BasicBlock]int{}, callInstr: in}
 				for i, prm := range callee.Params {
 					if i < len(in.Call.Args) {
